@@ -518,7 +518,13 @@ def kw_network(draw, m):
     txt = "BRANPROP\n" + "".join(" '%s' 'FIELD' %s /\n" % (g, draw(st.sampled_from(["9999", "9999"]))) for g in groups) + "/\n"
     txt += "NODEPROP\n 'FIELD' %s /\n" % fnum(draw(press))
     for g in groups:
-        txt += " '%s' 1* '%s' '%s' /\n" % (g, draw(st.sampled_from(["NO", "NO", "YES"])), draw(st.sampled_from(["NO", "YES"])))
+        choke = draw(st.sampled_from(["NO", "NO", "YES"]))
+        kinds = [W["kind"] for W in m.wells.values() if W["group"] == g]
+        if choke == "YES" and (not kinds or "I" in kinds):
+            # the auto-choke option is for groups of producers (NODEPROP switches every well of the group to a
+            # THP-controlled producer, injectors included)
+            choke = "NO"
+        txt += " '%s' 1* '%s' '%s' /\n" % (g, choke, draw(st.sampled_from(["NO", "YES"])))
     return txt + "/\n"
 
 
